@@ -431,6 +431,7 @@ PROPS["C05"] = Meta(
      Job("unif5-float", num(2, 5, "float"), quick=(2, 40, 100), thorough=(16, 400, 100)),
      Job("unif5-tsm", num(2, 5, tsmn=1), quick=(2, 40, 100), thorough=(16, 400, 100)),
      Job("unif3-periodic-tsm", num(2, 3, periodic=1, tsmn=1), quick=(1, 25, 100), thorough=(16, 200, 100)),
+     Job("unif5-periodic-tsm", num(2, 5, periodic=1, tsmn=1), quick=(2, 25, 100), thorough=(16, 200, 100)),
      Job("unif3-float", num(2, 3, "float"), quick=(1, 30, 100), thorough=(16, 400, 100), thorough_only=True)],
     NUM_RULE, NUM_ASSUME)
 NUM_CONFIGS = {"C04": [(1, 12, "double", 0, 0, 0, 4), (1, 8, "double", 1, 0, 0, None), (1, 4, "double", 0, 1, 0, None), (1, 8, "float", 0, 0, 0, None), (1, 4, "double", 0, 0, 1, None),
@@ -519,6 +520,12 @@ PROPS["C12"].jobs += [
     Job("omp-tsm-d3", tsm(1, 3), quick=(1, 300, 100), thorough=(16, 3000, 100)),
     Job("specx-tsm-d3", tsm(2, 3), quick=(1, 300, 100), thorough=(16, 3000, 100)),
     Job("starpu-tsm-d3", tsm(3, 3), quick=(1, 300, 100), thorough=(16, 3000, 100)),
+]
+PROPS["C12"].jobs += [
+    Job("per-seq-d3", periodic(0, 0, 3), quick=(2, 400, 100), thorough=(16, 3000, 100)),
+    Job("per-seq-d2", periodic(0, 0, 2), quick=(1, 400, 100), thorough=(16, 3000, 100)),
+    Job("ptsm-d3", periodic(0, 1, 3), quick=(1, 400, 100), thorough=(16, 3000, 100)),
+    Job("per-omp-d3", periodic(1, 0, 3), quick=(1, 300, 100), thorough=(16, 2000, 100)),
 ]
 PROPS["C12"].assumptions = SCHED_ASSUME
 
